@@ -15,6 +15,7 @@ import os
 from ..core import AnalysisError
 from ..dcmodel import DCModel
 from ..pyabs import W, lift, deep_eq, PyRaise, LexUnknown, NonUniform
+from ..objabs import ShapeMismatch
 from .common import show
 from .alter import deep_eq_safe, _Collector
 
@@ -126,6 +127,9 @@ class FinalJudge:
                 outs[m] = self.fmt(self.ctx, [copy.deepcopy(F)], m, False)
             except PyRaise as pr:
                 outs[m] = pr
+            except ShapeMismatch as sm:
+                col.add("O-uniform", f"{name}: the output layer treats the words of one class in structurally different ways (mode {m})", f"{sm}", wit)
+                return n
             except (LexUnknown, NonUniform) as e:
                 raise AnalysisError(f"{name}: output layer outside the interpreted subset in mode {m} on `{wit}`: {e}")
             n += 1
